@@ -556,3 +556,10 @@ package j5schema
 //@   ensures bytes.len: result1 == nil && fdKind(src) == 12 && ext.validate != nil && typeis(ext.validate.Type, *validate.FieldConstraints_Bytes) && vBytes(ext) != nil ==>
 //@   |   typeis(result0, *schema_j5pb.Field_Bytes) && as(*schema_j5pb.Field_Bytes, result0).Bytes.Rules != nil
 //@   |   && as(*schema_j5pb.Field_Bytes, result0).Bytes.Rules.MinLength == vBytes(ext).MinLen && as(*schema_j5pb.Field_Bytes, result0).Bytes.Rules.MaxLength == vBytes(ext).MaxLen
+
+// the entity-key annotation is read back whole (C04): primary/foreign key and the tenant key
+//@ spec func psmKey(src protoreflect.FieldDescriptor) *ext_j5pb.PSMKeyFieldOptions = extof(ext_j5pb.E_Key, descOpts(src))
+//@ func buildFromStringProto
+//@   ensures entity.key: result1 == nil && psmKey(src) != nil ==> typeis(result0, *schema_j5pb.Field_Key) && rKey(result0) != nil && rKey(result0).Entity != nil && rKey(result0).Entity.TenantKey == psmKey(src).TenantType
+//@   |   && (psmKey(src).PrimaryKey ==> typeis(rKey(result0).Entity.Type, *schema_j5pb.EntityKey_PrimaryKey) && as(*schema_j5pb.EntityKey_PrimaryKey, rKey(result0).Entity.Type).PrimaryKey)
+//@   |   && (!psmKey(src).PrimaryKey && psmKey(src).ForeignKey != nil ==> typeis(rKey(result0).Entity.Type, *schema_j5pb.EntityKey_ForeignKey) && as(*schema_j5pb.EntityKey_ForeignKey, rKey(result0).Entity.Type).ForeignKey == psmKey(src).ForeignKey)
